@@ -47,7 +47,9 @@ ANCHORS = [
 ]
 RULE = ("every close path (transport, forceful, TLS wrap, endpoint, client, server-side client, client-task teardown) x "
         "transport shapes (leaf with m=0..3 suspension points, stapled pair, TLS over leaf / stapled pair, "
-        "standard_compatible on/off, peer already closed) x lock free / held by a suspended sender; the number k of "
+        "standard_compatible on/off, peer already closed; the real asyncio socket adapter over a TCP pair, also with 16 MiB "
+        "of unflushed write data and a peer that does not read: the close waiter is then one environment-driven "
+        "suspension: peer drains / connection reset / cancel) x lock free / held by a suspended sender; the number k of "
         "suspension points of the all-complete run is measured, then every label sequence of length <= k over "
         "{complete, OSError, cancel, scope timeout} is run exhaustively (k <= 4) or cancel/raise is injected at each "
         "position i <= k (beyond), each followed by a second close.  Non-trivial = at least one label other than "
@@ -259,29 +261,61 @@ def make_classes():
 
 
 class AdapterLeaf:
-    """The production leaf: AsyncioTransportStreamSocketAdapter over a real asyncio transport (loopback TCP pair)."""
+    """The production leaf: AsyncioTransportStreamSocketAdapter over a real asyncio transport (loopback TCP pair).
+    backlog: 16 MiB are written before the close while the peer does not read, so the transport's write buffer is not
+    empty and transport.close() cannot finish by itself."""
 
-    def __init__(self, idx):
-        self.idx = idx
+    def __init__(self, idx, backlog=False):
+        self.idx, self.backlog = idx, backlog
         srv = _socket.create_server(("127.0.0.1", 0))
         self.sock = _socket.create_connection(srv.getsockname())
         self.peer_sock, _ = srv.accept()
         srv.close()
         self.sock.setblocking(False)
+        self.peer_sock.setblocking(False)
         self.adapter = None
         self.peer = None
+        self.transport = None
 
     async def open(self, backend):
         self.adapter = await backend.wrap_stream_socket(self.sock)
+        self.transport = self.adapter._AsyncioTransportStreamSocketAdapter__transport
+        if self.backlog:
+            self.transport.write(b"x" * (16 << 20))
+            assert self.transport.get_write_buffer_size() > 0, "harness: the kernel took the whole backlog"
         return self.adapter
 
     @property
     def closed(self):
-        # the resource itself: the adapter reports closing AND the file descriptor has been released
-        return bool(self.adapter.is_closing() and self.sock.fileno() == -1)
+        return bool(self.adapter.is_closing())
+
+    @property
+    def fd_released(self):
+        return self.sock.fileno() == -1
+
+    def waiting_for_flush(self):
+        return bool(self.backlog and self.adapter.is_closing() and self.sock.fileno() != -1
+                    and self.peer_sock.fileno() != -1)
+
+    def drain_peer(self):
+        try:
+            while self.peer_sock.recv(1 << 22):
+                pass
+        except BlockingIOError:
+            pass
+        except OSError:
+            pass
+
+    def reset_peer(self):
+        import struct
+        self.peer_sock.setsockopt(_socket.SOL_SOCKET, _socket.SO_LINGER, struct.pack("ii", 1, 0))
+        self.peer_sock.close()
 
     def cleanup(self):
-        self.peer_sock.close()
+        if self.peer_sock.fileno() != -1:
+            self.peer_sock.close()
+        if self.transport is not None and self.sock.fileno() != -1:
+            self.transport.abort()
         if self.sock.fileno() != -1:
             self.sock.close()
 
@@ -429,8 +463,8 @@ def run_case(inp, trace=None, cancel_at=None, info=None):
 
         async def abuild(b):
             if b[0] == 0:
-                if len(b) > 3 and b[3] == 1:
-                    lf = AdapterLeaf(b[1])
+                if len(b) > 3 and b[3] in (1, 2):
+                    lf = AdapterLeaf(b[1], backlog=(b[3] == 2))
                     leafs[b[1]] = lf
                     return await lf.open(backend)
                 lf = Leaf(world, backend, b[1], b[2], sock=csock, peer=peer)
@@ -460,6 +494,29 @@ def run_case(inp, trace=None, cancel_at=None, info=None):
                     break
                 fut = world.pending
                 waiting_lock = fut is None and world.sender_fut not in (None, "arm") and not world.sender_fut.done()
+                flushers = [lf for lf in leafs.values() if isinstance(lf, AdapterLeaf) and lf.waiting_for_flush()]
+                if fut is None and not waiting_lock and flushers:
+                    # the closing task waits for the asyncio transport to flush: the label says what the peer does
+                    lab = world.labels.pop(0) if world.labels else 0
+                    world.used += 1
+                    if trace is not None:
+                        trace.append(lab)
+                    lf = flushers[0]
+                    if lab == 2:
+                        task.cancel()
+                    elif lab == 1:
+                        lf.reset_peer()
+                        for _ in range(200):
+                            sp.iterate()
+                            if lf.fd_released:
+                                break
+                    else:
+                        for _ in range(2000):
+                            lf.drain_peer()
+                            sp.iterate()
+                            if lf.fd_released:
+                                break
+                    continue
                 if fut is None and not waiting_lock:
                     if sp.advance_to_timer():
                         sp.iterate()
@@ -497,8 +554,8 @@ def run_case(inp, trace=None, cancel_at=None, info=None):
             task = loop.create_task(scene_wrap())
             exc = drive(task)
             outer = int(all(l.closed for l in leafs.values())) if exc is not None else 0
-            return [_code(exc), [int(leafs.get(0).closed if 0 in leafs else 0), int(leafs.get(1).closed if 1 in leafs else 0)],
-                    outer, 0, world.used, []]
+            lfl = [int(leafs.get(0).closed if 0 in leafs else 0), int(leafs.get(1).closed if 1 in leafs else 0)]
+            return [_code(exc), lfl, outer, 0, world.used, [], lfl]
         if is_tls:
             t = loop.create_task(scene_wrap())
             sp.quiesce(until=t.done)
@@ -616,21 +673,26 @@ def run_case(inp, trace=None, cancel_at=None, info=None):
             sender_task = in_handler.get("sender")
         res = [_code(exc), [int(leafs[0].closed) if 0 in leafs else 0, int(leafs[1].closed) if 1 in leafs else 0],
                int(obj_is_closing()), int(api.is_closing()) if api is not None else 0, world.used]
+        fdflag = lambda i: int(getattr(leafs[i], "fd_released", leafs[i].closed)) if i in leafs else 0
         snd = []
+        fd_first = [fdflag(0), fdflag(1)]
         if second:
             before = world.used
             task2 = loop.create_task(closer())
             exc2 = drive(task2, is_main=False)
             snd = [_code(exc2), world.used - before,
-                   [int(leafs[0].closed) if 0 in leafs else 0, int(leafs[1].closed) if 1 in leafs else 0]]
+                   [int(leafs[0].closed) if 0 in leafs else 0, int(leafs[1].closed) if 1 in leafs else 0],
+                   [fdflag(0), fdflag(1)]]
         if sender_task is not None and not sender_task.done():
             if not world.sender_fut.done():
                 world.sender_fut.set_result(None)
             sp.quiesce()
+        fd_first = [fdflag(0), fdflag(1)] if not second else fd_first
         for lf in leafs.values():
             if isinstance(lf, AdapterLeaf):
                 lf.cleanup()
-        return res + [snd]
+        sp.quiesce()
+        return res + [snd, fd_first]
 
 
 def run_impl(inp):
@@ -642,7 +704,7 @@ def run_impl(inp):
 def oracle(inp):
     path, tr, lock, labels, second = inp[:5]
     out = run_case(inp[:5], cancel_at=inp[5]) if len(inp) > 5 else run_case(inp)
-    res, flags, outer, _api, used, snd = out
+    res, flags, outer, _api, used, snd = out[:6]
     want = leaves_of(tr[-1])
     if path == 2 and res == 0:
         return None      # the handshake succeeded: nothing to close
@@ -688,6 +750,8 @@ def shapes(thorough):
     out = [[0, b] for b in bases]
     # the production leaf: the asyncio socket adapter over a real asyncio transport (modelled as a leaf with m = 0)
     out += [[0, [0, 0, 0, 1]], [0, [1, [0, 0, 0, 1], [0, 1, 0, 1]]], [0, [1, [0, 0, 1], [0, 1, 0, 1]]]]
+    # ... with unflushed write data and a peer that is not reading (close waiter = one environment-driven suspension)
+    out += [[0, [0, 0, 0, 2]], [0, [1, [0, 0, 0, 2], [0, 1, 1]]]]
     for b in ([0, 0, 0], [0, 0, 1], [0, 0, 2], [1, [0, 0, 1], [0, 1, 1]]):
         for std, up in ((1, 2), (1, 1), (1, 0), (0, 0)):
             out.append([1, [std, up, 0], b])
@@ -717,17 +781,20 @@ def cases(tier, rng, escalate):
     for tr in shapes(thorough):
         is_tls = tr[0] == 1
         for path in (0, 1, 3, 4, 5, 6, 7):
-            real_leaf = "1]" in str(tr[-1]) and any(len(x) > 3 for x in ([tr[-1]] if tr[-1][0] == 0 else tr[-1][1:]))
+            leaf_specs = [tr[-1]] if tr[-1][0] == 0 else [x for x in tr[-1][1:] if isinstance(x, list)]
+            real_leaf = any(len(x) > 3 for x in leaf_specs)
+            backlog = any(len(x) > 3 and x[3] == 2 for x in leaf_specs)
             for lock in ((0, 1) if path in (3, 4, 5, 7) and not real_leaf else (0,)):
                 trace = []
                 run_case([path, tr, lock, [], 0], trace)
                 k = len(trace)
-                extra = 2      # handlers may reach further points once an earlier one failed
+                extra = 1 if backlog else 2      # handlers may reach further points once an earlier one failed
                 for labels in label_seqs(k + (extra if k else 0), thorough, rng):
                     second = 0 if (lock or path in (6, 7)) else 1
                     yield dict(input=[path, tr, lock, labels, second],
                                tags=[f"path{path}", "tls" if is_tls else "plain", "stapled" if tr[-1][0] == 1 else "leaf",
                                      "asyncio-adapter" if real_leaf else "memory-leaf",
+                                     ] + (["adapter-backlog"] if backlog else []) + [
                                      "lock" if lock else "nolock", f"k{k}"] +
                                     [f"label{l}" for l in sorted(set(labels))],
                                nontrivial=bool(lock or any(labels)))
@@ -745,7 +812,7 @@ def extra(ctx):
     the all-complete run; the conclusion of close_closes is checked (every leaf closed, fd released)."""
     from common import sx
     runs = bad = 0
-    shapes_ = [[0, [0, 0, 0, 1]], [0, [1, [0, 0, 0, 1], [0, 1, 0, 1]]], [0, [1, [0, 0, 1], [0, 1, 0, 1]]],
+    shapes_ = [[0, [0, 0, 0, 1]], [0, [1, [0, 0, 0, 1], [0, 1, 0, 1]]], [0, [1, [0, 0, 1], [0, 1, 0, 1]]], [0, [0, 0, 0, 2]],
                [1, [1, 2, 0], [0, 0, 1]], [1, [1, 1, 0], [1, [0, 0, 1], [0, 1, 1]]]]
     for tr in shapes_:
         for path in (0, 1, 3, 4, 5, 6, 7):
